@@ -19,13 +19,19 @@ func LayoutCase(r *engine.RNG, P int, sizes []int) (line string, fails []Failure
 	return line, fails
 }
 
+// LastWriterOps is the request line for the Lean writer model of the most recent LayoutAckCase
+// (the expected result is the decoded page chain plus the tail position).
+var LastWriterOps string
+
 // LayoutAckCase is LayoutCase followed (optionally) by one or two ACKs; the second line is
 // `ackplan P sizes n => freed false headFirst` for the Lean ACK plan model.
 func LayoutAckCase(r *engine.RNG, P int, sizes []int, withAck bool) (line, ackLine string, fails []Failure) {
-	s := New(Config{PageSize: uint32(P), MaxPages: 0, WriteBuffer: uint(r.Intn(6 * P))})
+	wb := uint(r.Intn(6 * P))
+	s := New(Config{PageSize: uint32(P), MaxPages: 0, WriteBuffer: wb})
 	if s.Open() != "ok" {
 		return "", "", []Failure{{Prop: "C05", Kind: "open", Msg: "open failed"}}
 	}
+	var ops []string // the calls, for the Lean writer model: w<n> (Write of n bytes), n (Next), f (Flush)
 	for _, sz := range sizes {
 		left := sz
 		for left > 0 {
@@ -36,21 +42,33 @@ func LayoutAckCase(r *engine.RNG, P int, sizes []int, withAck bool) (line, ackLi
 			if s.WriteChunk(n) != "ok" {
 				return "", "", append(s.Failures, Failure{Prop: "C05", Kind: "write", Msg: "write failed on an unbounded file"})
 			}
+			ops = append(ops, fmt.Sprintf("w%d", n))
 			left -= n
 			if left > 0 && r.Chance(10) {
 				s.Flush()
+				ops = append(ops, "f")
 			}
 		}
 		s.Next()
+		ops = append(ops, "n")
 		if r.Chance(30) {
 			s.Flush()
+			ops = append(ops, "f")
 		}
 	}
 	if s.Flush() != "ok" {
 		return "", "", append(s.Failures, Failure{Prop: "C05", Kind: "flush", Msg: "final flush failed"})
 	}
+	ops = append(ops, "f")
+	bufPages := int(wb) / P
+	if bufPages <= 5 { // pq defaultMinPages
+		bufPages = 5
+	}
+	LastWriterOps = fmt.Sprintf("writerops %d %d %s", P, bufPages, strings.Join(ops, ","))
 	// decode the chain
 	var pages []string
+	var tailID uint64
+	tailIdx, tailInPage := 0, 0
 	func() {
 		defer func() {
 			if rec := recover(); rec != nil {
@@ -71,6 +89,7 @@ func LayoutAckCase(r *engine.RNG, P int, sizes []int, withAck bool) (line, ackLi
 		rb, _ := rp.Bytes()
 		headOff := binary.LittleEndian.Uint64(rb[4:])
 		tailOff := binary.LittleEndian.Uint64(rb[20:])
+		tailID = binary.LittleEndian.Uint64(rb[28:])
 		if headOff == 0 {
 			return
 		}
@@ -91,6 +110,7 @@ func LayoutAckCase(r *engine.RNG, P int, sizes []int, withAck bool) (line, ackLi
 			plen := P - 28
 			if id == tailPage {
 				plen = tailIn - 28
+				tailIdx, tailInPage = len(pages), tailIn
 				if next != 0 {
 					s.fail("C05", "tail-successor", "the tail page %d has a successor %d", id, next)
 				}
@@ -130,6 +150,11 @@ func LayoutAckCase(r *engine.RNG, P int, sizes []int, withAck bool) (line, ackLi
 	res := strings.Join(pages, " ")
 	if len(pages) == 0 {
 		res = "-"
+	}
+	if len(pages) > 0 {
+		LastWriterOps += fmt.Sprintf(" => %s tail %d:%d:%d", res, tailIdx, tailInPage, tailID)
+	} else {
+		LastWriterOps = ""
 	}
 	return fmt.Sprintf("layoutsizes %d %s => %s", P, strings.Join(ss, ","), res), ackLine, s.Failures
 }
